@@ -566,6 +566,8 @@ def oracle_world(w):
             return
         parent = token_data[ev["parent_token"]][0]
         changed = [n for n, x, y in zip(GD, parent, gdata(f)) if x != y]
+        if ev.get("adv") and c == ev["sender"]:
+            return      # the forger's own client merging the commit it forged with the MLS library is the adversary's business, not a receiver's
         orig = w.events.get(root_of(w, n_ev), ev)
         line = (orig.get("line") or "").split()
         if changed and str(ev["sender"]) not in parent[1].split(","):
